@@ -35,6 +35,12 @@ def evaluate(d, prop, checks, confirm=True):
     meta_path = os.path.join(d, "meta.json")
     meta = json.load(open(meta_path)) if os.path.exists(meta_path) else {}
     meta.update({"property": prop, "name": name})
+    notes = os.path.join(d, "notes.md")
+    if os.path.exists(notes) and "needs_to_manifest" not in meta:
+        txt = open(notes, errors="replace").read()
+        m = re.search(r"(?is)(needs?|manifest|trigger)[^\n]*\n(.{0,900})", txt)
+        meta["needs_to_manifest"] = (m.group(0) if m else txt[:900]).strip()[:1000]
+        meta["written_by"] = "independent sub-agent given only the property text and a scratch worktree"
     wt = worktree(name)
     try:
         if confirm:
